@@ -604,13 +604,13 @@ func init() {
 		Rule:        "exhaustive enumeration of a finite lattice per mapping (3 kinds x alphas x 13 index offsets, every mapping rebuilt from its base and offset as decoders do): EVERY bin between Index(min) and Index(max) probed at its lower bound +-2 ulps, at +-1e-9 relative, and at the exact float where Index steps up to it (bisection on the bit pattern) +-2 ulps; every binade boundary +-2 ulps; both range ends and their inward neighbours; the full lattice of floats with a T-bit significand in range. Clauses at every point: |Value(Index(v))-v| <= alpha*v + allowance; Index non-decreasing along the enumeration; LowerBound(Index(v)) <= v <= LowerBound(Index(v)+1) up to the allowance; the index fits in int32; RelativeAccuracy() equals the configured alpha within 2^-49. evaluations = distinct_nontrivial = number of probe points inside the indexable range",
 		Assumptions: []string{"rounding allowance eps(v) = 2^-48 + 2^-49 (|ln v| + |offset| ln gamma), relative (DESIGN.md section 5); floats strictly between enumerated points are not probed"},
 		Shards:      c03Shards,
-		ShardBudget: budget(80*time.Second, 14*time.Minute),
+		ShardBudget: budget(240*time.Second, 14*time.Minute),
 	})
 	mc.Register(&mc.Property{
 		ID: "C19", Level: "exploration",
 		Rule:        "exhaustive over a grid of 351 mappings (3 kinds x 13 accuracies from 1e-6 to 0.99 x 9 index offsets, built from base and offset): each is sent through the binary form, the protobuf message and the streaming protobuf writer and read back; the result must be Equals both ways and behave identically (Index on a probe lattice across the range, Value and LowerBound bit for bit, range, reported accuracy); accuracy-built and base-built mappings must be equal; each is followed by 14 mappings sharing some but not all of (kind, base, offset) with it, read back right after it, which must come back as themselves, and mappings of another kind with the same base and offset must not be equal to it; ALL 351^2 ordered pairs are checked for reflexivity, symmetry, inequality across kinds and across accuracies 0.1% or more apart, and 'equal implies same indexes'",
 		Assumptions: []string{"behavioural identity is probed on a finite lattice (400 points quick, 2000 thorough) across the indexable range"},
 		Shards:      c19Shards,
-		ShardBudget: budget(80*time.Second, 14*time.Minute),
+		ShardBudget: budget(240*time.Second, 14*time.Minute),
 	})
 }
